@@ -5,11 +5,13 @@ import json, sys, re
 prop = sys.argv[1]
 RULES = [
     (r'xml:lang|xml:space|lyric-language|undeclared', "attributes the schema references as xml:lang / xml:space are handled under the un-prefixed names 'lang' / 'space' (accepted, serialised without the xml: prefix; the qualified names are rejected; lyric-language loses use=required; xml:space has no resolvable type: KeyError('type'))"),
-    (r'/name(/|$)', "the schema attribute 'name' collides with the read-only Python property XMLElement.name: dot assignment raises AttributeError('property ... has no setter')"),
-    (r'xlink:|/link(/|$)|/opus(/|$)|/part-link(/|$)', "xlink:* attribute references are never resolved (NotImplementedError(ref) is built but not raised): every attribute operation on link / opus / part-link elements fails with AttributeError about None"),
+    (r'/name(/|$|@)', "the schema attribute 'name' collides with the read-only Python property XMLElement.name: dot assignment raises AttributeError('property ... has no setter')"),
+    (r'xlink:|/link(/|$|@)|/opus(/|$|@)|/part-link(/|$|@)', "xlink:* attribute references are never resolved (NotImplementedError(ref) is built but not raised): every attribute operation on link / opus / part-link elements fails with AttributeError about None"),
     (r'source|image', "xs:anyURI has no simple-type class: validating the 'source' attribute of image / credit-image raises NameError"),
     (r'space|text-formatting', "xml:space has an anonymous simple type: XSDAttribute.type_ raises KeyError('type')"),
 ]
+import subprocess, os
+subprocess.run(['/verif/check', prop], env=dict(os.environ, VERIF_IGNORE_SIGNATURE_FINDINGS='1'), stdout=subprocess.DEVNULL, stderr=subprocess.DEVNULL)
 ev = json.load(open(f'/verif/evidence/{prop}.json'))
 kf = json.load(open('/verif/known_findings.json'))
 kf['findings'] = [e for e in kf['findings'] if e['property'] != prop or e.get('region')]
@@ -26,6 +28,9 @@ for o in ev['coverage']['violations_list']:
                 what = w; break
     if what is None:
         print('UNMATCHED', o['oid'], o.get('detail')); continue
-    kf['findings'].append(dict(property=prop, obligation=o['oid'], signature=o.get('detail'), what=o['oid'].split('/', 1)[1] + ': ' + what)); n += 1
+    oid = o['oid'].split('@')[0]
+    if any(e['property'] == prop and e['obligation'] == oid and e.get('signature') == o.get('detail') for e in kf['findings']):
+        continue
+    kf['findings'].append(dict(property=prop, obligation=oid, signature=o.get('detail'), what=oid.split('/', 1)[1] + ': ' + what)); n += 1
 json.dump(kf, open('/verif/known_findings.json', 'w'), indent=1, ensure_ascii=True)
 print('recorded', n)
